@@ -177,9 +177,27 @@ def check_flush(ctx, num=3, only=None):
             ctx.ob(num, "K16", f"{meth}: an element joins the current group only if its {keyattr} is exactly equal (==) to the group's", ok, f, a,
                    detail=f"facts at the append: {sorted(norm.show(z) for z in fs)}")
         # the boundary between two groups is a change of the key and nothing else: where a new group is started the key differs (or there is no group yet)
+        def _justifies(z, depth=0):
+            """this condition says: the key differs from the current group's, or there is no group yet"""
+            if z[0] == "cmp" and z[1] == "!=" and (keyattr in z[2] or keyattr in z[3]):
+                return True
+            if z[0] == "cmp" and z[1] == "is" and z[3] == "None":
+                return True
+            if z[0] == "truth" and z[2] is True and z[1] in le and cnt.get(z[1]) == 1 and depth < 2:
+                return _justifies(norm.nnf(le[z[1]]), depth + 1)
+            if z[0] == "or":
+                return all(_justifies(k, depth) for k in z[1])
+            if z[0] == "and":
+                return any(_justifies(k, depth) for k in z[1])
+            return False
         for s_ in starts:
             fs_ = g.facts_at(poolmod.block_of(s_)[0])      # what holds where the branch that starts the group is entered (the key variable is re-set inside it)
-            okb = any((z[0] == "cmp" and z[1] == "!=" and (keyattr in z[2] or keyattr in z[3])) or (z[0] == "cmp" and z[1] == "is" and z[3] == "None") for z in fs_)
+            okb = any(_justifies(z) for z in fs_)
+            if not okb:
+                # the same as a path property: within one iteration no way leads to the start of a group except over a test that says so
+                way = g.path_avoiding(hid, {g.node_of(s_).id}, set(), edge_ok=lambda a, b, lab: not (a == hid and lab == "done")
+                                      and not (isinstance(lab, tuple) and lab[0] == "cond" and _justifies(lab[1])))
+                okb = way is None
             ctx.ob(num, "K16", f"{meth}: a new group is started only where the {keyattr} changes (rows with the same {keyattr} are never split over two groups)", okb, f, s_,
                    construct="group boundary = change of key", detail=f"facts at the start of a group: {sorted(norm.show(z) for z in fs_)[:8]}")
         # yield-before-reset: a group start that is not the first must be preceded by a yield of the old group in the same iteration
